@@ -93,6 +93,9 @@ type Exec struct {
 	frozenOn    bool
 	frozenHits  []frozenHit
 	sharedFrom  int
+	sharedOn    bool
+	sharedAcc   map[interface{}]*sharedInfo
+	sharedOrder []interface{}
 	encodesUnlocked int
 	nGoroutines int
 	deadlocked  bool
@@ -500,6 +503,10 @@ func (ex *Exec) recordCE(kind, id, msg string, pos token.Position, fn string, in
 		ce.Pos = fmt.Sprintf("%s:%d", pos.Filename, pos.Line)
 	}
 	ce.Prefix = append([]int{}, ex.taken...)
+	if ex.sched != nil && len(ex.sched.pauses) > 0 {
+		// the failure may depend on the schedule: the native confirmation inserts pauses at the preemption points
+		ce.Pauses = append([]PausePoint{}, ex.sched.pauses...)
+	}
 	ex.ces = append(ex.ces, ce)
 	return ce
 }
@@ -515,6 +522,7 @@ func (ex *Exec) runPath(fn *ssa.Function, prefix []int) (res *PathResult, pendin
 	ex.pathInstr, ex.ordersUsed, ex.allMapOrders, ex.internalN = 0, false, false, 0
 	ex.frozenOn, ex.frozenHits, ex.held, ex.accesses = false, nil, nil, nil
 	ex.sharedFrom = 0
+	ex.sharedOn, ex.sharedAcc, ex.sharedOrder = false, nil, nil
 	ex.encodesUnlocked = 0
 	ex.deadlocked, ex.leakCheck = false, false
 	ex.sched = nil
